@@ -72,7 +72,7 @@ def generate(seed, tier):
     if rw.random() < 0.15:
         data["recipe"] = rw.choice(["zeros", "const", "impulses"])
     cfg = SC.gen_config(rw, N, backends=("numba", "numba", "numpy", "auto"), allow_band=True)
-    kind = rw.choice(["full", "full", "full", "single", "band1"])
+    kind = rw.choice(["full", "full", "full", "single", "band1", "band2"])
     sc = {"data": data, "cfg": cfg, "kind": kind, "clock": CK.gen_clock(R.stream(seed, "clock"))}
     if kind == "single":
         L = rw.choice([1, 2, 2, 3]) if rw.random() < 0.15 else rw.randrange(1, N + 1)
@@ -81,7 +81,7 @@ def generate(seed, tier):
         sc["single"] = {"f": fsing, "L": L} if r_ < 0.5 else ({"f": fsing, "fres": cfg["fs"] / L} if r_ < 0.75 else
                                                             {"f": fsing, "fres": cfg["fs"] / (L + round(rw.uniform(-0.45, 0.45), 3))})   # fs/fres not an integer
         cfg["band"] = None
-    if kind == "band1":
+    if kind in ("band1", "band2"):
         cfg["band"] = None
         sc["band_bin"] = rw.randrange(0, 64)
     names = ALL_NAMES
@@ -163,12 +163,17 @@ def make_result(sc, out):
     data = SC.make_record(sc["data"])
     cfg = dict(sc["cfg"])
     try:
-        if sc["kind"] == "band1":
+        if sc["kind"] in ("band1", "band2"):
             an0 = SC.build_analyzer(data, cfg)
             p0 = an0.plan()
-            k = sc["band_bin"] % int(p0["nf"])
-            f0 = float(p0["f"][k])
-            cfg["band"] = [f0, f0]
+            nf0 = int(p0["nf"])
+            fsort = np.sort(np.asarray(p0["f"], dtype=np.float64))
+            k = sc["band_bin"] % nf0
+            if sc["kind"] == "band2" and nf0 >= 2:
+                k = min(k, nf0 - 2)
+                cfg["band"] = [float(fsort[k]), float(fsort[k + 1])]      # exactly two bins
+            else:
+                cfg["band"] = [float(fsort[k]), float(fsort[k])]
         an = SC.build_analyzer(data, cfg)
         if sc["kind"] == "single":
             s = sc["single"]
@@ -203,6 +208,10 @@ def execute(sc, out):
     single = nf == 1
     out.count("result_single_bin" if single else ("result_uniform_K" if uniform_k else "result_ragged"))
 
+    try:        # a one-bin result of the same analyzer (probe for "is this attribute per-bin?")
+        probe = an.compute_single_bin(float(np.asarray(res.f)[0]), L=int(np.asarray(res.L)[0]))
+    except Exception:
+        probe = None
     objs = [res]
     origin = [None]            # index of the object a clone was made from
     # snapshot of "truth": values of a pristine twin computed once, never touched by the history
@@ -273,7 +282,7 @@ def execute(sc, out):
                 _xpickle(o, op[2], truth, iscsd, out)
             elif kind == "df":
                 df = o.to_dataframe()
-                _check_df(df, o, truth, nf, iscsd, out)
+                _check_df(df, o, truth, nf, iscsd, out, probe)
                 out.count("export_single_bin" if single else ("export_uniform_K" if uniform_k else "export_ragged"))
                 if single or uniform_k:
                     out.nontrivial = True
@@ -465,7 +474,7 @@ def _check_r3(truth, res, iscsd, nf, out):
     out.count("oracle_r3")
 
 
-def _check_df(df, o, truth, nf, iscsd, out):
+def _check_df(df, o, truth, nf, iscsd, out, probe=None):
     import pandas as pd
 
     if not isinstance(df, pd.DataFrame):
@@ -481,6 +490,16 @@ def _check_df(df, o, truth, nf, iscsd, out):
             except Exception:
                 out.violate("dataframe", str(col), "column is not an attribute of the result")
                 continue
+            # an undocumented column: a per-bin array has one entry per bin for EVERY result, so the same attribute of a
+            # one-bin result of this analyzer must have exactly one entry
+            if col != "D" and probe is not None:
+                try:
+                    pv = getattr(probe, col)
+                    if not (isinstance(pv, np.ndarray) and pv.shape[:1] == (1,)):
+                        out.violate("dataframe", str(col), f"column '{col}' is exported although it is not a per-bin array (its length does not follow the number of bins)")
+                        continue
+                except Exception:
+                    pass
         if ref is RAISED:
             continue
         if ref is None or np.asarray(ref).shape[:1] != (nf,):
